@@ -523,7 +523,6 @@ func (e *Engine) emptyEverything() error {
 	return nil
 }
 
-
 func (e *Engine) modelSize() int {
 	n := 0
 	for _, r := range e.Roots {
